@@ -61,12 +61,12 @@ class Emit:
                 self.class_sets.append(c)
 
 
-def variants(platform):
+def variants(platform, session_names=None, additive=False):
     """(variant label, driver, extra grammar modes) — base table, then with registered sessions"""
     out = [("base", driver_for(platform), {})]
-    ps = spec.PLATFORMS[platform]
+    ps = spec.platforms(additive)[platform]
     if "session" in ps:
-        for name in spec.SESSION_NAMES:
+        for name in (spec.SESSION_NAMES if session_names is None else session_names):
             d = driver_for(platform)
             d.register_configuration_session(session_name=name)
             s = ps["session"]
@@ -79,13 +79,14 @@ def variants(platform):
     return out
 
 
-def generate_platform(platform, outdir, known_regions_excluded=True):
-    ps = spec.PLATFORMS[platform]
+def generate_platform(platform, outdir, session_names=None, additive=False):
+    ps = spec.platforms(additive)[platform]
     em = Emit()
     obs = []
     info = {"obligations": [], "levels": {}}
     lines = []
-    for vlabel, drv, extra in variants(platform):
+    tables = {}
+    for vlabel, drv, extra in variants(platform, session_names, additive):
         tbl = table_of(drv)
         combined = drv.channel._base_channel_args.comms_prompt_pattern
         if combined != drv.comms_prompt_pattern:
@@ -101,6 +102,7 @@ def generate_platform(platform, outdir, known_regions_excluded=True):
         lines.append("Definition %s : list level := [\n  %s]." % (tname, ";\n  ".join(lvl_terms)))
         lines.append("Definition comb_%s : re := %s." % (vid, em.re_term(combined.encode(), re.M | re.I)))
         info["levels"][vlabel] = [n for n, _, _ in tbl]
+        tables[tname] = {"variant": vlabel, "levels": [[n, p_, list(nc)] for n, p_, nc in tbl], "combined": combined}
         modes = dict(ps["modes"]) if vlabel == "base" else {}
         # with a session registered, the ordinary modes must still classify as before, and the session mode as itself
         if vlabel != "base":
@@ -110,17 +112,25 @@ def generate_platform(platform, outdir, known_regions_excluded=True):
             line = m["line"]
             carves = m.get("carve", [])
             # a session registered on NX-OS / EOS: its prompt is carved out of 'configuration' by the vendor convention already
-            g = em.re_term(line, 0)
+            pos = [em.re_term(line, 0)] + [em.re_term(x, 0) for x in m.get("len", [])]
+            relaxed = rx.to_coq(rx.relax(rx.translate(line, 0)[1]))
             nl = "(Cls [(10, 10)])"
             em.lit_classes(b"\n ")
             trail = em.re_term(ps["trail"], 0) if ps["trail"] else "Eps"
-            cterms = [em.re_term(c[0], re.I) for c in carves]
+            # all carve-outs of a mode as ONE alternation under a single search (one substring tracker instead of a
+            # product of trackers)
+            cterms = [em.re_term("|".join("(?:%s)" % c[0] for c in carves), re.I)] if carves else []
             oid = "ob_%s_%s" % (vid, re.sub(r"[^A-Za-z0-9]", "_", mname))
-            lines.append("Definition %s : obligation := mkOb %s %s comb_%s\n  (grammar_top %s [%s])\n  (grammar_top (Cat %s (Cat %s %s)) [%s])\n  [%s]." % (
-                oid, coq_str("%s/%s/%s" % (platform, vlabel, mname)), tname, vid, g, "; ".join(cterms),
-                nl, g, trail, "; ".join(cterms), "; ".join(coq_str(c) for c in m["class"])))
+            lines.append("Definition %s : obligation := mkOb %s %s comb_%s\n  (grammar_conjs [%s] [%s])\n  (grammar_conjs [%s] [%s])\n  [%s]\n  [%s] [Cat %s (Cat %s %s)]." % (
+                oid, coq_str("%s/%s/%s" % (platform, vlabel, mname)), tname, vid, "; ".join(pos), "; ".join(cterms),
+                "; ".join("Cat %s (Cat %s %s)" % (nl, g, trail) for g in pos), "; ".join(cterms), "; ".join(coq_str(c) for c in m["class"]),
+                relaxed, nl, relaxed, trail))
             obs.append(oid)
             info["obligations"].append("%s/%s/%s" % (platform, vlabel, mname))
+            info.setdefault("obs", []).append({
+                "oid": oid, "platform": platform, "variant": vlabel, "mode": mname, "line": line, "len": m.get("len", []),
+                "carves": [c[0] for c in carves], "findings": [c[2] for c in carves if c[2]], "class": list(m["class"]),
+                "trail": ps["trail"], "table": tname, "levels": [n for n, _, _ in tbl]})
     atoms = rx.atoms(em.class_sets)
     head = ["(* generated from /repo and /verif/spec/prompts.py by gen/gen_prompts.py — do not edit *)",
             "From Coq Require Import String.",
@@ -134,17 +144,69 @@ def generate_platform(platform, outdir, known_regions_excluded=True):
     path = os.path.join(outdir, "Gen_Prompts_%s.v" % pid)
     if not os.path.exists(path) or open(path).read() != text:
         open(path, "w").write(text)
+    info["tables"] = tables
     info["atoms"] = len(atoms)
     info["classes"] = len(em.class_sets)
     return path, obs, info
 
 
-def generate_check_file(platform, outdir, obs):
-    """the by-computation lemma over the generated obligations of one platform"""
-    text = ("From Verif Require Import Bytes Regex RegexDeriv RegexDecide Prompt Prompt_Proofs.\n"
-            "From Gen Require Import Gen_Prompts_%s.\n"
-            "Lemma obs_ok : forallb (check_ob CL ATOMS FUEL) OBS = true.\nProof. vm_compute. reflexivity. Qed.\n" % platform)
-    path = os.path.join(outdir, "Chk_Prompts_%s.v" % platform)
+
+
+def generate_cache_facts(outdir):
+    """Gen_PromptCache.v — ast facts about the memoisation of _determine_current_priv and who clears it"""
+    import ast
+    repo = os.environ.get("VERIF_REPO", "/repo")
+    src = open(os.path.join(repo, "scrapli/driver/network/base_driver.py")).read()
+    tree = ast.parse(src)
+    cls = [n for n in tree.body if isinstance(n, ast.ClassDef) and n.name == "BaseNetworkDriver"]
+    if len(cls) != 1:
+        raise rx.Unsupported("BaseNetworkDriver not found")
+    fns = {n.name: n for n in cls[0].body if isinstance(n, ast.FunctionDef)}
+    det = fns.get("_determine_current_priv")
+    upd = fns.get("update_privilege_levels")
+    if det is None or upd is None:
+        raise rx.Unsupported("_determine_current_priv / update_privilege_levels not found")
+    cap = None
+    cached = False
+    for dec in det.decorator_list:
+        if isinstance(dec, ast.Call) and getattr(dec.func, "id", getattr(dec.func, "attr", "")) == "lru_cache":
+            cached = True
+            for kw in dec.keywords:
+                if kw.arg == "maxsize" and isinstance(kw.value, ast.Constant) and isinstance(kw.value.value, int):
+                    cap = kw.value.value
+        elif getattr(dec, "id", getattr(dec, "attr", "")) in ("lru_cache", "cache"):
+            raise rx.Unsupported("unbounded cache decorator: not modelled")
+    if cached and cap is None:
+        raise rx.Unsupported("lru_cache without an integer maxsize")
+    # update_privilege_levels: the LAST statement-level effects must include cache_clear() after the pattern was regenerated
+    calls = [ast.unparse(n.value.func) for n in upd.body if isinstance(n, ast.Expr) and isinstance(n.value, ast.Call)]
+    clears = (not cached) or ("self._determine_current_priv.cache_clear" in calls)
+    regen = "self._generate_comms_prompt_pattern" in calls
+    pushes = any(isinstance(n, ast.Assign) and ast.unparse(n.targets[0]) == "self.channel.comms_prompt_pattern" for n in upd.body)
+    # register_configuration_session of the four platform drivers: _create_configuration_session then update_privilege_levels
+    reg_ok = True
+    regs = []
+    for rel in ("scrapli/driver/core/cisco_nxos/sync_driver.py", "scrapli/driver/core/cisco_nxos/async_driver.py",
+                "scrapli/driver/core/arista_eos/sync_driver.py", "scrapli/driver/core/arista_eos/async_driver.py"):
+        t = ast.parse(open(os.path.join(repo, rel)).read())
+        found = False
+        for c in [n for n in t.body if isinstance(n, ast.ClassDef)]:
+            for f in c.body:
+                if isinstance(f, (ast.FunctionDef, ast.AsyncFunctionDef)) and f.name == "register_configuration_session":
+                    found = True
+                    seq = [ast.unparse(n.value.func) for n in f.body if isinstance(n, ast.Expr) and isinstance(n.value, ast.Call)]
+                    ok = ("self._create_configuration_session" in seq and "self.update_privilege_levels" in seq and
+                          seq.index("self._create_configuration_session") < seq.index("self.update_privilege_levels"))
+                    regs.append((rel, ok))
+                    reg_ok = reg_ok and ok
+        if not found:
+            raise rx.Unsupported("register_configuration_session not found in %s" % rel)
+    text = ("(* generated from scrapli/driver/network/base_driver.py and the NX-OS / EOS drivers by gen/gen_prompts.py *)\n"
+            "Definition gen_cached : bool := %s.\nDefinition gen_cap : nat := %d%%nat.\n"
+            "Definition gen_update_clears_cache : bool := %s.\nDefinition gen_update_regenerates_pattern : bool := %s.\n"
+            "Definition gen_update_pushes_pattern_to_channel : bool := %s.\nDefinition gen_register_then_update : bool := %s.\n"
+            % tuple(["true" if cached else "false", cap or 0] + ["true" if x else "false" for x in (clears, regen, pushes, reg_ok)]))
+    path = os.path.join(outdir, "Gen_PromptCache.v")
     if not os.path.exists(path) or open(path).read() != text:
         open(path, "w").write(text)
-    return path
+    return path, {"cached": cached, "cap": cap, "clears": clears, "regenerates": regen, "pushes": pushes, "register": regs}
